@@ -268,3 +268,49 @@ where
         handles.into_iter().map(|h| h.join().expect("reader")).collect()
     })
 }
+
+/// Run cache-filling account reads (one enrolled thread each, through the shared view that
+/// speculative workers use) concurrently with the ordered commit of `changes` (on the calling
+/// thread, enrolled as the commit role, through the commit half; the accounts of each change are
+/// loaded through the view first, as the executing transaction did). Returns the accounts the
+/// readers saw, in the order of `reads`.
+pub fn cache_race_accounts<DB>(
+    state: &mut crate::ParallelState<DB>,
+    reads: &[Address],
+    changes: Vec<EvmState>,
+) -> Vec<Option<AccountInfo>>
+where
+    DB: DatabaseRef + Send + Sync,
+    DB::Error: std::fmt::Debug,
+{
+    use revm::DatabaseCommit;
+    let (view, mut commit) = state.split_for_parallel();
+    std::thread::scope(|scope| {
+        let handles: Vec<_> = reads
+            .iter()
+            .map(|address| {
+                let address = *address;
+                scope.spawn(move || {
+                    let _enrolled = crate::verif::rt::enroll(0);
+                    crate::verif::rt::pt1(
+                        "cache_read_basic_begin",
+                        crate::verif::rt::fnv(address.as_slice()),
+                    );
+                    view.basic_ref(address).expect("backing store read")
+                })
+            })
+            .collect();
+        {
+            let _enrolled = crate::verif::rt::enroll(2);
+            for change in changes {
+                // the transaction that produced `change` loaded its accounts while executing
+                for address in change.keys() {
+                    view.basic_ref(*address).expect("backing store read");
+                }
+                crate::verif::rt::pt("cache_commit_begin");
+                commit.commit(change);
+            }
+        }
+        handles.into_iter().map(|h| h.join().expect("reader")).collect()
+    })
+}
